@@ -77,7 +77,9 @@ pub struct Env<'a> {
 }
 
 pub fn parse_timestamp(text: &str) -> Option<i64> {
-    chrono::NaiveDateTime::parse_from_str(text, "%Y-%m-%d %H:%M:%S").ok().map(|dt| dt.and_utc().timestamp_micros())
+    use chrono::Timelike;
+    // (second 60 is chrono's leap second notation, not a time of day)
+    chrono::NaiveDateTime::parse_from_str(text, "%Y-%m-%d %H:%M:%S").ok().filter(|dt| dt.nanosecond() < 1_000_000_000).map(|dt| dt.and_utc().timestamp_micros())
 }
 
 pub fn parse_interval(text: &str) -> Option<i64> {
@@ -637,8 +639,7 @@ impl<'a> Evaluator<'a> {
                 _ => Ev::err(),
             },
             ("make_timestamp", [y, mo, d, h, mi, s, us]) => match (y, mo, d, h, mi, s, us) {
-                // chrono reads 1_000_000..2_000_000 microseconds at second 59 as a leap second: not fixed by the README
-                (_, _, _, _, _, V::Int(59), V::Int(us)) if *us >= 1_000_000 && *us < 2_000_000 => Ev::unspec(),
+                // (1_000_000..2_000_000 microseconds at second 59 are out of range like anywhere else, not a leap second)
                 // the ends of the range of representable instants are not documented (totality there is C09's business)
                 (V::Int(y), _, _, _, _, _, _) if y.abs() > 100_000 => Ev::unspec(),
                 (V::Int(y), V::Int(mo), V::Int(d), V::Int(h), V::Int(mi), V::Int(s), V::Int(us)) => match make_ts(*y, *mo, *d, *h, *mi, *s, *us) {
